@@ -367,8 +367,18 @@ def rule_r2(chk, db):
     # where decoding is applied in parse itself: a direct decoder call, or a call of / a map over a local closure that decodes
     dclos = {x.name for x in db.nested(p, include_self=False) if any(is_decoder(callee_def(t)) for _, t in x.calls())}
 
+    def decoding_fn(name):
+        """a decoder, or a private function of the crate that applies one (`fn percent_decode(s) -> .. { urlencoding::decode(s).map_err(..) }`)"""
+        if is_decoder(name):
+            return True
+        hb = db.body(name)
+        return hb is not None and hb.crate == "s3s" and len(hb.blocks) <= 12 and any(is_decoder(callee_def(t2)) for x2 in db.nested(hb) for _, t2 in x2.calls())
+
     def applies_decoder(t):
         if is_decoder(callee_def(t)):
+            return True
+        # handed over as a function item: `version_id.map(percent_decode)`
+        if any(isinstance(a, dict) and a.get("c") == "fn" and decoding_fn(a.get("def", "")) for a in t["args"]):
             return True
         for a in t["args"]:
             for l, _ in (flow.resolve_chain(p, a) or []):
